@@ -6,19 +6,21 @@ import (
 
 // ---------- small constructors ----------
 
-func req(m int) Action     { return Action{A: "require", M: m} }
-func preq(m int) Action    { return Action{A: "prequire", M: m} }
-func setl(e VExp) Action   { return Action{A: "setloaded", E: &e} }
-func ret(e VExp) Action    { return Action{A: "return", E: &e} }
-func retNothing() Action   { return Action{A: "returnnothing"} }
-func fail() Action         { return Action{A: "fail"} }
-func module() Action       { return Action{A: "module"} }
-func moduleSeeAll() Action { return Action{A: "module", SeeAll: true} }
-func eNil() VExp           { return VExp{K: "nil"} }
-func eFalse() VExp         { return VExp{K: "false"} }
-func eTrue() VExp          { return VExp{K: "true"} }
-func eStr(k int) VExp      { return VExp{K: "str", N: k} }
-func eTab(k int) VExp      { return VExp{K: "tab", N: k} }
+func req(m int) Action             { return Action{A: "require", M: m} }
+func preq(m int) Action            { return Action{A: "prequire", M: m} }
+func reqT(t string, m int) Action  { return Action{A: "require", M: m, T: t} }
+func preqT(t string, m int) Action { return Action{A: "prequire", M: m, T: t} }
+func setl(e VExp) Action           { return Action{A: "setloaded", E: &e} }
+func ret(e VExp) Action            { return Action{A: "return", E: &e} }
+func retNothing() Action           { return Action{A: "returnnothing"} }
+func fail() Action                 { return Action{A: "fail"} }
+func module() Action               { return Action{A: "module"} }
+func moduleSeeAll() Action         { return Action{A: "module", SeeAll: true} }
+func eNil() VExp                   { return VExp{K: "nil"} }
+func eFalse() VExp                 { return VExp{K: "false"} }
+func eTrue() VExp                  { return VExp{K: "true"} }
+func eStr(k int) VExp              { return VExp{K: "str", N: k} }
+func eTab(k int) VExp              { return VExp{K: "tab", N: k} }
 func sc(a ...Action) []Action {
 	if a == nil {
 		return []Action{}
@@ -40,6 +42,13 @@ func hClear(n int) Op                 { return Op{Op: "clear", N: n} }
 func hSetG(n int, g string, k int) Op { return Op{Op: "setglobal", N: n, G: g, GK: k} }
 func hGetG(n int) Op                  { return Op{Op: "getglobal", N: n} }
 func hGetL(n int) Op                  { return Op{Op: "getloaded", N: n} }
+func hNewPre(keep ...int) Op {
+	if keep == nil {
+		keep = []int{}
+	}
+	return Op{Op: "newpreload", Keep: keep}
+}
+func onThread(th int, o Op) Op { o.Th = th; return o }
 func hReg(n int, fs ...int) Op {
 	if fs == nil {
 		fs = []int{}
@@ -110,6 +119,30 @@ func corpus(w *lib.Writer, env *envT) {
 		{hReg(0), hPre(0, "lua", sc(module(), ret(eNil()))), hClear(0), hReq(0), hGetG(0)},
 		{hPre(0, "lua", sc(ret(eStr(0)))), hReq(0), hReg(0, 2), hReq(0), hGetG(0)},
 	}
+	// wave 5: a require cycle that crosses a coroutine boundary is the same loop error; a module
+	// loaded on one thread is cached for all (the sentinel and package.loaded belong to the state)
+	hs = append(hs,
+		[]Op{hPre(0, "lua", sc(reqT("co", 0))), hReq(0), hGetL(0), hReq(0)},
+		[]Op{hPre(0, "lua", sc(preqT("co", 0), ret(eTab(0)))), hReq(0), hReq(0)},
+		[]Op{hPre(0, "lua", sc(reqT("cog", 1))), hFile(0, 1, sc(preqT("cog", 0), reqT("co", 0))), hReq(0), hGetL(0), hGetL(1), hReq(1)},
+		[]Op{hPre(0, "go", sc(reqT("co", 0))), hReq(0), hGetL(0), hReq(0)},
+		[]Op{hPre(0, "go", sc(preqT("cog", 1), ret(eTab(0)))), hPre(1, "lua", sc(reqT("co", 0))), hReq(0), hGetL(1), hReq(1), hReq(0)},
+		[]Op{hPre(0, "lua", sc(reqT("co", 1), ret(eTab(0)))), hPre(1, "go", sc(reqT("cog", 2))), hFile(1, 2, sc(ret(eTab(1)))), hReq(0), hReq(2), hReq(1), hReq(0)},
+		[]Op{hPre(0, "lua", sc(fail())), onThread(1, hReq(0)), hReq(0), onThread(2, hReq(0)), hGetL(0)},
+		[]Op{hPre(0, "lua", sc(req(0))), onThread(1, hReq(0)), hReq(0), hGetL(0)},
+		[]Op{hPre(0, "lua", sc(ret(eTab(0)))), onThread(1, hReq(0)), hReq(0), onThread(2, hReq(0)), onThread(1, hReg(1, 2)), hReq(1), hGetG(1)},
+		[]Op{onThread(1, hPre(0, "go", sc(ret(eStr(0))))), hReq(0), onThread(2, hPre(1, "go", sc(req(0), ret(eTab(1))))), onThread(1, hReq(1)), hReq(1)},
+	)
+	// wave 5: a script assigns a new table to package.preload; PreloadModule and package.preload[n]=f
+	// afterwards must register where the searcher looks (host registrations after the replacement)
+	hs = append(hs,
+		[]Op{hNewPre(), hPre(0, "go", sc(ret(eStr(0)))), hReq(0), hReq(0)},
+		[]Op{hFile(0, 0, sc(ret(eStr(1)))), hNewPre(), hPre(0, "go", sc(ret(eStr(0)))), hReq(0), hGetL(0)},
+		[]Op{hPre(0, "go", sc(ret(eStr(0)))), hPre(1, "lua", sc(ret(eStr(1)))), hNewPre(1), hReq(0), hReq(1), hPre(0, "go", sc(ret(eTab(0)))), hReq(0), hReq(0)},
+		[]Op{hPre(0, "lua", sc(req(1), ret(eTab(0)))), hNewPre(0), hPre(1, "go", sc(ret(eTab(1)))), hReq(0), hReq(1), hPreNone(1), hClear(1), hReq(1)},
+		[]Op{hPre(0, "go", sc()), hNewPre(0), hNewPre(0), hNewPre(), hReq(0), onThread(1, hPre(0, "go", sc(ret(eTrue())))), onThread(2, hReq(0))},
+		[]Op{hPre(0, "lua", sc(req(1), ret(eStr(0)))), hFile(1, 1, sc(ret(eStr(1)))), hNewPre(0), hPre(1, "go", sc(fail())), hReq(0), hGetL(0), hGetL(1)},
+	)
 	for _, h := range hs {
 		runCase(w, env, in{Ops: h})
 	}
@@ -129,6 +162,13 @@ func alphabet() []Action {
 	}
 	for m := 0; m < 3; m++ {
 		as = append(as, preq(m))
+	}
+	// the same on another coroutine of the state
+	for m := 0; m < 3; m++ {
+		as = append(as, reqT([]string{"co", "cog", "co"}[m], m))
+	}
+	for m := 0; m < 3; m++ {
+		as = append(as, preqT([]string{"cog", "co", "cog"}[m], m))
 	}
 	for _, e := range []VExp{eNil(), eFalse(), eStr(0), eTab(0)} {
 		as = append(as, setl(e))
@@ -169,6 +209,8 @@ func companionPairs() []pairT {
 		{sc(preq(0), setl(eTab(0))), sc(req(0), ret(eTab(1)))},
 		{sc(module()), sc(setl(eFalse()))},
 		{nil, sc(preq(1), ret(eStr(1)))},
+		{sc(reqT("co", 0)), sc(preqT("co", 1), reqT("cog", 0))},
+		{sc(preqT("cog", 0), setl(eTab(0))), sc(reqT("co", 0), ret(eTab(1)))},
 	}
 }
 
@@ -258,6 +300,37 @@ func randVExp(r *lib.Rand, falsyOK bool) VExp {
 	}
 }
 
+// a quarter of the nested requires run on another coroutine of the state
+func randThread(r *lib.Rand) string {
+	return []string{"", "", "", "", "", "", "co", "cog"}[r.Intn(8)]
+}
+
+// one host call in seven is issued on one of the host's two extra threads
+func randTh(r *lib.Rand) int {
+	if r.Chance(14) {
+		return 1 + r.Intn(2)
+	}
+	return 0
+}
+
+func randKeep(r *lib.Rand, nn int) []int {
+	keep := []int{}
+	switch r.Pick(3, 2, 3) {
+	case 0: // package.preload = {}
+	case 1: // a copy
+		for m := 0; m < nn; m++ {
+			keep = append(keep, m)
+		}
+	default:
+		for m := 0; m < nn; m++ {
+			if r.Bool() {
+				keep = append(keep, m)
+			}
+		}
+	}
+	return keep
+}
+
 func randScript(r *lib.Rand, nnames int) []Action {
 	for {
 		n := r.Pick(1, 3, 4, 3, 2)
@@ -265,9 +338,9 @@ func randScript(r *lib.Rand, nnames int) []Action {
 		for i := 0; i < n; i++ {
 			switch r.Pick(5, 3, 3, 2, 4, 1, 2) {
 			case 0:
-				s = append(s, req(r.Intn(nnames)))
+				s = append(s, reqT(randThread(r), r.Intn(nnames)))
 			case 1:
-				s = append(s, preq(r.Intn(nnames)))
+				s = append(s, preqT(randThread(r), r.Intn(nnames)))
 			case 2:
 				s = append(s, setl(randVExp(r, true)))
 			case 3:
@@ -325,15 +398,17 @@ func genRandom(w *lib.Writer, env *envT, r *lib.Rand, tier string) {
 		steps := cr.Range(5, 14)
 		for i := 0; i < steps; i++ {
 			m := cr.Intn(nn)
-			switch cr.Pick(42, 8, 4, 8, 5, 3, 8, 7, 6, 6, 4) {
+			switch cr.Pick(42, 8, 4, 8, 5, 3, 8, 7, 6, 6, 4, 3) {
+			case 11:
+				ops = append(ops, hNewPre(randKeep(cr, nn)...))
 			case 0:
-				ops = append(ops, hReq(m))
+				ops = append(ops, onThread(randTh(cr), hReq(m)))
 			case 1:
 				kind := "lua"
 				if cr.Chance(35) {
 					kind = "go"
 				}
-				ops = append(ops, hPre(m, kind, randScript(cr, nn)))
+				ops = append(ops, onThread(randTh(cr), hPre(m, kind, randScript(cr, nn))))
 			case 2:
 				ops = append(ops, hPreNone(m))
 			case 3:
@@ -357,7 +432,7 @@ func genRandom(w *lib.Writer, env *envT, r *lib.Rand, tier string) {
 						fs = append(fs, f)
 					}
 				}
-				ops = append(ops, hReg(m, fs...))
+				ops = append(ops, onThread(randTh(cr), hReg(m, fs...)))
 			case 9:
 				ops = append(ops, hSetG(m, []string{"nil", "str", "str", "tab"}[cr.Intn(4)], cr.Intn(2)))
 			case 10:
@@ -472,6 +547,9 @@ func genInit(w *lib.Writer, env *envT, r *lib.Rand, tier string) {
 		if cr.Chance(30) {
 			ops = append(ops, hSetG(idPkg, []string{"nil", "str", "tab"}[cr.Intn(3)], cr.Intn(2)))
 		}
+		if cr.Chance(20) {
+			ops = append(ops, hNewPre(randKeep(cr, 4)...))
+		}
 		for j := cr.Range(2, 6); j > 0; j-- {
 			m := cr.Intn(4)
 			switch cr.Pick(5, 2, 2, 2, 2, 1) {
@@ -480,7 +558,7 @@ func genInit(w *lib.Writer, env *envT, r *lib.Rand, tier string) {
 			case 1:
 				ops = append(ops, hGetL(registered[cr.Intn(len(registered))]))
 			case 2:
-				ops = append(ops, hPre(m, []string{"lua", "go"}[cr.Intn(2)], randScript(cr, 4)))
+				ops = append(ops, onThread(randTh(cr), hPre(m, []string{"lua", "go"}[cr.Intn(2)], randScript(cr, 4))))
 			case 3:
 				ops = append(ops, hReg(registered[cr.Intn(len(registered))], cr.Intn(4)))
 			case 4:
@@ -490,5 +568,137 @@ func genInit(w *lib.Writer, env *envT, r *lib.Rand, tier string) {
 			}
 		}
 		runCase(w, env, in{Init: init, Ops: ops})
+	}
+}
+
+// ---------- wave 5: re-bound tables and long nested loads ----------
+
+// Histories around `package.preload = <new table>`: loaders installed, some loaded, the table
+// replaced (empty / copy / part), then host (PreloadModule, on any thread) and Lua registrations
+// and requires of everything; sometimes a second replacement.
+func genRebind(w *lib.Writer, env *envT, r *lib.Rand, tier string) {
+	n := 160
+	if tier == "thorough" {
+		n = 4000
+	}
+	for k := 0; k < n; k++ {
+		cr := r.Fork()
+		nn := cr.Range(2, 4)
+		ops := []Op{}
+		for m := 0; m < nn; m++ {
+			switch cr.Pick(3, 3, 2, 2) {
+			case 0:
+				ops = append(ops, hPre(m, "lua", randScript(cr, nn)))
+			case 1:
+				ops = append(ops, onThread(randTh(cr), hPre(m, "go", randScript(cr, nn))))
+			case 2:
+				ops = append(ops, hFile(cr.Intn(2), m, randScript(cr, nn)))
+			}
+		}
+		for j := cr.Range(0, 2); j > 0; j-- {
+			ops = append(ops, hReq(cr.Intn(nn)))
+		}
+		rounds := 1
+		if cr.Chance(25) {
+			rounds = 2
+		}
+		for ; rounds > 0; rounds-- {
+			ops = append(ops, hNewPre(randKeep(cr, nn)...))
+			for j := cr.Range(2, 6); j > 0; j-- {
+				m := cr.Intn(nn)
+				switch cr.Pick(5, 4, 2, 1, 1, 1) {
+				case 0:
+					ops = append(ops, onThread(randTh(cr), hReq(m)))
+				case 1:
+					ops = append(ops, onThread(randTh(cr), hPre(m, "go", randScript(cr, nn))))
+				case 2:
+					ops = append(ops, hPre(m, "lua", randScript(cr, nn)))
+				case 3:
+					ops = append(ops, hClear(m))
+				case 4:
+					ops = append(ops, hPreNone(m))
+				case 5:
+					ops = append(ops, hFile(cr.Intn(2), m, randScript(cr, nn)))
+				}
+			}
+			for m := 0; m < nn; m++ {
+				ops = append(ops, hReq(m))
+			}
+		}
+		for m := 0; m < nn; m++ {
+			ops = append(ops, hGetL(m))
+		}
+		runCase(w, env, in{Ops: ops})
+	}
+}
+
+// Long chains of nested loads (deeper than anything the other generators build): c0 requires c1
+// requires ... c(L-1), over all nine ordinary names, every link on the same thread or across a
+// coroutine, protected or not; the last one succeeds, fails, is missing, or requires a member of
+// the chain again (a long cycle). Then everything is required again and package.loaded read.
+func genChain(w *lib.Writer, env *envT, r *lib.Rand, tier string) {
+	n := 60
+	if tier == "thorough" {
+		n = 1500
+	}
+	names := []int{0, 1, 2, 3, 5, 6, 7, 8, 9}
+	for k := 0; k < n; k++ {
+		cr := r.Fork()
+		perm := append([]int{}, names...)
+		for i := len(perm) - 1; i > 0; i-- {
+			j := cr.Intn(i + 1)
+			perm[i], perm[j] = perm[j], perm[i]
+		}
+		l := cr.Range(5, 9)
+		c := perm[:l]
+		ops := []Op{}
+		install := func(m int, s []Action) {
+			switch cr.Pick(3, 2, 3) {
+			case 0:
+				ops = append(ops, hPre(m, "lua", s))
+			case 1:
+				ops = append(ops, onThread(randTh(cr), hPre(m, "go", s)))
+			default:
+				ops = append(ops, hFile(cr.Intn(2), m, s))
+			}
+		}
+		link := func(m int) Action {
+			if cr.Chance(15) {
+				return preqT(randThread(cr), m)
+			}
+			return reqT(randThread(cr), m)
+		}
+		for i := 0; i+1 < l; i++ {
+			s := sc()
+			if cr.Chance(20) {
+				s = append(s, setl(randVExp(cr, false)))
+			}
+			s = append(s, link(c[i+1]))
+			switch cr.Pick(3, 2, 1) {
+			case 0:
+				s = append(s, ret(randVExp(cr, true)))
+			case 1:
+			default:
+				s = append(s, module())
+			}
+			install(c[i], s)
+		}
+		switch cr.Pick(3, 2, 2, 4) {
+		case 0:
+			install(c[l-1], sc(ret(eTab(0))))
+		case 1:
+			install(c[l-1], sc(fail()))
+		case 2: // missing
+		default:
+			install(c[l-1], sc(link(c[cr.Intn(l)]), ret(eTab(1))))
+		}
+		ops = append(ops, onThread(randTh(cr), hReq(c[cr.Intn(2)])))
+		for _, m := range c {
+			ops = append(ops, hGetL(m))
+		}
+		for j := cr.Range(2, 5); j > 0; j-- {
+			ops = append(ops, onThread(randTh(cr), hReq(c[cr.Intn(l)])))
+		}
+		runCase(w, env, in{Ops: ops})
 	}
 }
